@@ -492,6 +492,13 @@ impl Model {
                     }
                 }
             } else {
+                if self.closed {
+                    // the caller still holds its slot although the pool has been closed in the
+                    // meantime (its recycling failed afterwards): no statement says whether it
+                    // creates a last object or reports Closed
+                    self.unspecified = Some("a caller holding a slot reaches creation on a closed pool".into());
+                    return;
+                }
                 if !self.runtime && t.create.ms().is_some() {
                     if t.create.nonzero() {
                         self.gets[g].phase = Phase::Done(Res::NoRuntime);
